@@ -624,4 +624,22 @@ example : uptoClose (session 1048576 [[0, 225], [0, 228, 0, 1], [0, 2]]).2 =
 example : (feed (fresh 1048576) [0, 1]).2 =
     [.write (208 :: 3 :: 229 :: 255 :: txtNoCsm), .close] := by decide
 
+/-- hypotheses of `C15_oversize_aborts`: five bytes announce 4 GiB + 65805 + 6 -/
+example : extractSize ({ (fresh 1048576) with spool := [0xF0, 255, 255, 255, 255] } : Conn).spool
+    = some (6, 0, 4295033100) ∧ 6 + 0 + 4295033100 > (fresh 1048576).maxSize := by decide
+/-- hypotheses of `C15_tkl_above_8_aborts`: TKL 9, complete -/
+example : extractSize [0x09, 1, 1, 2, 3, 4, 5, 6, 7, 8, 9] = some (2, 9, 0) := by decide
+/-- a CSM with the critical option 1: Abort with Bad-CSM-Option 1, close; then connection lost -/
+example : (session 1048576 [[0x10, 225, 0x10]]).2 =
+    [.write [0x50, 225, 0x23, 16, 0, 0, 0x20],
+     .write (208 :: 10 :: 229 :: 0x21 :: 1 :: 255 :: txtOptNotSupported), .close,
+     .failPending .lost] := by decide
+/-- an empty message after the CSM leaves no trace; before the CSM it is refused like any other -/
+example : (session 1048576 [[0, 225, 0, 0, 0, 0]]).2 = [.write [0x50, 225, 0x23, 16, 0, 0, 0x20]] := by
+  decide
+/-- a frame of exactly the maximum size passes, one byte more aborts (max size 5) -/
+example : (feed (fresh 5) [0, 225, 0x30, 1, 255, 1, 2]).2 = [.request ⟨1, [], [], [1, 2]⟩] ∧
+    (feed (fresh 5) [0, 225, 0x40, 1, 255, 1, 2, 3]).2 =
+      [.write (208 :: 18 :: 229 :: 255 :: txtOverlyLarge), .close] := by decide
+
 end Aiocoap.Tcp
